@@ -676,15 +676,10 @@ def replay_input(check, inp):
 
 
 def classify(pc, r):
-    if pc.name in ("b58_string", "b58check_string") and r["kind"] in ("b58-decode-raises-other", "b58check-valid-raises") \
-            and r.get("exc") == "UnicodeEncodeError" and r.get("surrogate"):
-        return "b58-lone-surrogate-unicode-error"
     return None
 
 
-KNOWN_REPLAYS = {
-    "b58-lone-surrogate-unicode-error": lambda: chk_b58check_string("\ud800"),
-}
+KNOWN_REPLAYS = {}
 
 
 def search(rng, tier, disagreements, known_ids):
